@@ -141,6 +141,8 @@ pub fn run(tier: Tier, seed: u64) -> i32 {
     ev.floor("in-range honest cases", ev.bucket_get("honest.in-range"), 700);
     ev.floor("out-of-range honest cases", ev.bucket_get("honest.out-of-range"), 700);
     ev.floor("end-to-end confirmations", ev.bucket_get("end_to_end"), tier.pick(60, 500));
+    ev.floor("near-miss assignments (one sub-identity on one row) refused by the real prover", ev.bucket_get("near_miss.end_to_end"), 100);
+    ev.floor("sub-identities covered by near misses", ev.set_len("near_miss_identities") as u64, 4);
     ev.finish()
 }
 
